@@ -529,7 +529,7 @@ def worker(ctx: Ctx):
     )
     ctx.extra["denied"] = "; ".join(f"{k}: {v}" for k, v in sorted(DENY.items()))
     # 2. generated scenarios
-    n_gen = 22 if quick else 220
+    n_gen = 22 if quick else 150
     steps = 6 if quick else 10
 
     hyp_run(ctx, gen_case(steps).map(lambda c: _exclude(ctx, c)), run_case, n_gen, sub=1)
@@ -537,4 +537,4 @@ def worker(ctx: Ctx):
     small = [f for f in files if "uc7" not in f and not any(k in f for k in SLOW_FILES)]
     hyp_run(ctx, shipped_b_case(small if quick else [f for f in files if not any(k in f for k in SLOW_FILES)],
                                 steps).map(lambda c: _exclude(ctx, c)), run_case,
-            6 if quick else 60, sub=2)
+            6 if quick else 40, sub=2)
